@@ -17,6 +17,7 @@ import (
 	"strings"
 	"sync"
 
+	"github.com/lestrrat-go/jwx/v2/jwk"
 	"github.com/mr-tron/base58"
 	ssi "github.com/nuts-foundation/go-did"
 	"github.com/nuts-foundation/go-did/did"
@@ -69,7 +70,7 @@ func webDocSeed(id string) string {
  {"id":"%[1]s#svc","type":"svc","serviceEndpoint":"https://example.com/svc"},
  {"id":"%[1]s#ref","type":"ref","serviceEndpoint":"%[1]s/serviceEndpoint?type=svc"},
  {"id":"%[1]s#compound","type":"compound","serviceEndpoint":{"a":"https://example.com/a","b":"%[1]s/serviceEndpoint?type=svc"}},
- {"id":"%[1]s#comm","type":"NutsComm","serviceEndpoint":"grpc://nuts.example.com:5555"},
+ {"id":"%[1]s#comm","type":"NutsComm","serviceEndpoint":"grpc://node.nutsnode.nl:5555"},
  {"id":"%[1]s#contact","type":"node-contact-info","serviceEndpoint":{"email":"a@example.com","name":"x"}}]}`,
 		id, ecJWKJSON(), base58.Encode(edPub))
 	return doc
@@ -79,13 +80,14 @@ var allRelations = []resolver.RelationType{resolver.Authentication, resolver.Ass
 
 // useDocument drives the consumers of a resolved DID document through the given resolver.
 func useDocument(r resolver.DIDResolver, id did.DID) error {
+	r = &memoResolver{inner: r} // the consumers below resolve ~40 times; the node resolves once per use: do not multiply the cost of one resolution
 	kr := resolver.DIDKeyResolver{Resolver: r}
 	sr := resolver.DIDServiceResolver{Resolver: r}
-	var firstErr error
+	firstErr := errors.New("no assertion key resolved")
 	for _, frag := range []string{"#key-1", "#key-2", "#key-3", "#key-4", "#0", "#" + id.ID} {
 		for _, rel := range allRelations {
 			_, err := kr.ResolveKeyByID(id.String()+frag, nil, rel)
-			if frag == "#key-1" && rel == resolver.AssertionMethod {
+			if rel == resolver.AssertionMethod && firstErr != nil {
 				firstErr = err
 			}
 		}
@@ -109,6 +111,25 @@ func useDocument(r resolver.DIDResolver, id did.DID) error {
 	return firstErr
 }
 
+type memoResolver struct {
+	inner resolver.DIDResolver
+	done  map[string]bool
+	doc   map[string]*did.Document
+	err   map[string]error
+}
+
+func (m *memoResolver) Resolve(id did.DID, md *resolver.ResolveMetadata) (*did.Document, *resolver.DocumentMetadata, error) {
+	k := id.String()
+	if m.done == nil {
+		m.done, m.doc, m.err = map[string]bool{}, map[string]*did.Document{}, map[string]error{}
+	}
+	if !m.done[k] {
+		d, _, err := m.inner.Resolve(id, md)
+		m.done[k], m.doc[k], m.err[k] = true, d, err
+	}
+	return m.doc[k], &resolver.DocumentMetadata{}, m.err[k]
+}
+
 type staticResolver struct {
 	docs map[string]*did.Document
 }
@@ -120,13 +141,22 @@ func (s staticResolver) Resolve(id did.DID, _ *resolver.ResolveMetadata) (*did.D
 	return nil, nil, resolver.ErrNotFound
 }
 
+func thumbprint(k *attackerKey) string {
+	key, err := jwk.FromRaw(k.priv.Public())
+	if err != nil {
+		panic(err)
+	}
+	_ = jwk.AssignKeyID(key)
+	return key.KeyID()
+}
+
 func didEntries(h *harness) []*entry {
 	webID := did.MustParseDID("did:web:example.com")
 	doer := &scriptedDoer{}
 	web := didweb.Resolver{HttpClient: doer}
 	webSeeds := seedsOf("did-web-document", webDocSeed(webID.String()))
 	// did:web: hostile document bodies served by the remote host, then every consumer of the resolved document
-	webEntry := &entry{name: "didweb.Resolve-DIDKeyResolver-ServiceResolver(hostile document)", serial: false,
+	webEntry := &entry{name: "didweb.document", serial: false,
 		gen: genJSON(webSeeds, false, plainWrap),
 		call: func(in input) error {
 			doer.set(200, "application/did+json", in.data)
@@ -137,7 +167,7 @@ func didEntries(h *harness) []*entry {
 		}}
 	// did:web: hostile HTTP envelope around a valid body
 	validBody := webSeeds[0].tree.Bytes()
-	webHTTP := &entry{name: "didweb.Resolve(hostile HTTP response)",
+	webHTTP := &entry{name: "didweb.http",
 		gen: func(h *harness, e *entry, emit func(input)) {
 			emit(input{data: []byte("200\napplication/did+json\n"), aux: [3]any{200, "application/did+json", validBody}, valid: true, seed: "ok"})
 			cts := []string{"", "application/json", "application/did+ld+json", "application/json; charset=utf-8", "text/html", ";", "application/json;;", "application/json; q", "a/b/c", " ", "\x00", strings.Repeat("a", 70000) + "/json", "application/did+json; charset=\"", "APPLICATION/JSON"}
@@ -165,15 +195,23 @@ func didEntries(h *harness) []*entry {
 
 	// did:nuts documents as the network delivers them: the ambassador unmarshals the transaction payload, then the validators run
 	nutsID := "did:nuts:GvkzxsezHvEc8nGhgz6Xo3jbqkHwswLmWw3CYtCm7hAW"
-	nutsSeeds := seedsOf("did-nuts-document", strings.ReplaceAll(webDocSeed(nutsID), `,{"@base":"`+nutsID+`"}`, ""))
-	// the relative id "#key-3" needs @base: drop those members from the did:nuts seed
-	for _, s := range nutsSeeds {
-		vms := s.tree.Get("verificationMethod")
-		vms.A = vms.A[:2]
-		am := s.tree.Get("assertionMethod")
-		am.A = am.A[:2]
-	}
-	nutsEntry := &entry{name: "didnuts.validators-DIDKeyResolver-ServiceResolver(hostile did:nuts document)", gen: genJSON(nutsSeeds, false, plainWrap),
+	k2 := newAttackerKey()
+	nutsDoc := fmt.Sprintf(`{"@context":["https://www.w3.org/ns/did/v1","https://w3c-ccg.github.io/lds-jws2020/contexts/lds-jws2020-v1.json"],
+"id":%[1]q,"controller":[%[1]q],
+"verificationMethod":[
+ {"id":"%[1]s#%[3]s","type":"JsonWebKey2020","controller":%[1]q,"publicKeyJwk":%[2]s},
+ {"id":"%[1]s#%[5]s","type":"JsonWebKey2020","controller":%[1]q,"publicKeyJwk":%[4]s}],
+"authentication":["%[1]s#%[3]s"],"assertionMethod":["%[1]s#%[3]s","%[1]s#%[5]s"],
+"keyAgreement":["%[1]s#%[3]s"],"capabilityInvocation":["%[1]s#%[3]s"],"capabilityDelegation":["%[1]s#%[5]s"],
+"service":[
+ {"id":"%[1]s#svc","type":"svc","serviceEndpoint":"https://example.com/svc"},
+ {"id":"%[1]s#ref","type":"ref","serviceEndpoint":"%[1]s/serviceEndpoint?type=svc"},
+ {"id":"%[1]s#compound","type":"compound","serviceEndpoint":{"a":"https://example.com/a","b":"%[1]s/serviceEndpoint?type=svc"}},
+ {"id":"%[1]s#comm","type":"NutsComm","serviceEndpoint":"grpc://node.nutsnode.nl:5555"},
+ {"id":"%[1]s#contact","type":"node-contact-info","serviceEndpoint":{"email":"a@example.com","name":"x"}}]}`,
+		nutsID, atk.pubJWK, thumbprint(atk), k2.pubJWK, thumbprint(k2))
+	nutsSeeds := seedsOf("did-nuts-document", nutsDoc)
+	nutsEntry := &entry{name: "didnuts.document", gen: genJSON(nutsSeeds, false, plainWrap),
 		call: func(in input) error {
 			var doc did.Document
 			if err := json.Unmarshal(in.data, &doc); err != nil {
@@ -196,7 +234,7 @@ func didEntries(h *harness) []*entry {
 		"jwk-rsa", fmt.Sprintf(`{"kty":"RSA","n":%q,"e":"AQAB","alg":"PS256","use":"sig","kid":"k"}`, rsaN),
 	)
 	jwkResolver := didjwk.NewResolver()
-	jwkEntry := &entry{name: "didjwk.Resolve-DIDKeyResolver",
+	jwkEntry := &entry{name: "didjwk.Resolve",
 		gen: genJSON(jwkSeeds, false, func(s jsonSeed, m jmut.Mutant) (input, bool) {
 			enc := base64.RawStdEncoding.EncodeToString(m.Data)
 			switch len(m.Data) % 11 {
@@ -238,7 +276,7 @@ func didEntries(h *harness) []*entry {
 		{"rsa", []byte{0x85, 0x24}, x509.MarshalPKCS1PublicKey(&rsaKey.PublicKey)},
 	}
 	keyResolver := didkey.NewResolver()
-	keyEntry := &entry{name: "didkey.Resolve-DIDKeyResolver",
+	keyEntry := &entry{name: "didkey.Resolve",
 		gen: func(h *harness, e *entry, emit func(input)) {
 			rnd := h.r.Rand("gen/" + e.name)
 			mk := func(code, key []byte) []byte {
@@ -264,7 +302,7 @@ func didEntries(h *harness) []*entry {
 					"x-equals-p":     append([]byte{0x02}, bytes.Repeat([]byte{0xff}, len(c.key)-1)...),
 					"uncompressed":   append([]byte{0x04}, bytes.Repeat(c.key[1:], 2)...),
 					"doubled":        append(append([]byte{}, c.key...), c.key...),
-					"huge":           bytes.Repeat(c.key, 300),
+					"huge":           bytes.Repeat(c.key, 20),
 					"other-key-type": codecs[(len(c.key)+1)%len(codecs)].key,
 				}
 				for name, k := range variants {
@@ -302,7 +340,7 @@ func didEntries(h *harness) []*entry {
 						ops = append(ops, fmt.Sprintf("didkey:randomize@/%s", c.name))
 					default:
 						oc := otherCodes[rnd.Intn(len(otherCodes))]
-						raw = append(append([]byte{}, oc...), raw[len(c.code):]...)
+						raw = append(append([]byte{}, oc...), raw[min(len(c.code), len(raw)):]...)
 						ops = append(ops, fmt.Sprintf("didkey:codec@/%s", c.name))
 					}
 					if len(raw) == 0 {
